@@ -77,6 +77,7 @@ def build(case):
     nonfinite = int(rng.integers(0, k)) if rng.random() < 0.15 else -1
     own_probe_tables = bool(rng.random() < 0.25)       # the inputs carry a channel_probe.npy of their own (it says nothing about the merge)
     same_dat_name = [None, None, 'recording.bin', ['recording.bin']][int(rng.integers(0, 4))]     # the same raw file NAME in every folder
+    other_rate = bool(rng.random() < 0.12)
     if case.get('finite_only'):
         nonfinite = -1            # (C13/C14 export amplitudes, which non-finite templates leave undefined)
     specs = []
@@ -95,6 +96,8 @@ def build(case):
                         ncdat_extra=int(rng.integers(0, 3)), permute_map=bool(rng.integers(0, 2)), probes=own_probe_tables)
         if same_dat_name is not None:
             s.notes['dat_path_literal'] = same_dat_name
+        if p >= 1 and other_rate:
+            s.sample_rate = rate * 0.9          # a probe with its own clock: sample numbers are kept as they are
         s.positions = s.positions - s.positions.min(axis=0)        # non-negative coordinates
         if rng.random() < 0.25:
             s.notes['fortran'] = 'all'            # column-major .npy files (MATLAB exporters), in any probe incl. the first
@@ -105,7 +108,9 @@ def build(case):
         for t in TSVS:
             if pick(tsv_mode[t]):
                 rows = ['cluster_id\t%s' % t[8:-4]]
-                for c in ids.tolist():
+                # (sorters keep the rows of clusters that lost all their spikes during curation: ids inside the probe's range)
+                gap_ids = [c for c in range(int(ids.max())) if c not in set(ids.tolist())][:3] if rng.random() < 0.4 else []
+                for c in sorted(ids.tolist() + gap_ids):
                     if rng.random() < 0.8:
                         v = ['good', 'mua', 'noise'][int(rng.integers(0, 3))] if 'KSLabel' in t else \
                             (repr(float(np.round(rng.uniform(0, 100), 3))) if rng.random() < 0.8 else ['0.0', '0'][int(rng.integers(0, 2))])
